@@ -143,11 +143,11 @@ theorem chains_addRr_none {s s' : State} (hw : WInv s) (hl : PtrLogOK s) (owner 
   have e : Ext s s' := by
     have := frame_addRr .none owner ty cls ttl rd s
     rw [h] at this; exact this
-  obtain ⟨k, hit, hlen, hb, htb⟩ := addRr_item .none owner ty cls ttl rd s s' hw hwf trivial h
+  obtain ⟨k, hit, hlen, hb, htb, _, _⟩ := addRr_item .none owner ty cls ttl rd s s' hw hwf trivial h
   refine ⟨hrec.winv, hrec.log, e, ?_, ⟨s.cursor, k, s'.cursor - (s.cursor + k + 10)⟩, ?_, ?_⟩
   · exact qchain_move (fun a k _ it => item_ext it e) hq
   · exact rchain_append (rchain_ext e hr) (rchain_one hit hlen hb hle)
-  · exact be16_of_bytesAt htb hty
+  · exact be16_of_bytesAt htb.1 hty
 
 
 theorem unwrap_ok_inv' {α} {f : M α} {s s' : State} {a : α} (h : unwrap f s = (.ok a, s')) :
